@@ -88,6 +88,33 @@ def as_layout(A, k):
     return A.copy()
 
 
+FORMS = ("float64", "float64", "list", "tuple", "int64", "int32", "float32", "fortran", "strided")
+
+
+def as_form(A, form):
+    """The same (n, d) coordinates in another container / dtype a caller may legitimately hand over.  Integer and float32
+    forms are only produced when they represent the values exactly (otherwise a nested list is returned), so the
+    mathematical input is unchanged.  Returns (object, label actually used)."""
+    A = np.asarray(A, dtype=float)
+    if form in ("int64", "int32"):
+        if np.array_equal(A, np.round(A)) and np.max(np.abs(A), initial=0.0) < 2**30:
+            return A.astype(form), form
+        form = "list"
+    if form == "float32":
+        if np.array_equal(A.astype(np.float32).astype(float), A):
+            return A.astype(np.float32), form
+        form = "list"
+    if form == "list":
+        return [[float(x) for x in r] for r in A], "list"
+    if form == "tuple":
+        return tuple(tuple(float(x) for x in r) for r in A), "tuple"
+    if form == "fortran":
+        return as_layout(A, 2), "fortran"
+    if form == "strided":
+        return as_layout(A, 1), "strided"
+    return A.copy(), "float64"
+
+
 def facet_flatness(V, facets, normals, offsets):
     """Largest distance of a facet's own vertices from the facet plane, in units of eps * (largest |coordinate|)."""
     V = np.asarray(V, dtype=float)
